@@ -1,25 +1,46 @@
 #!/bin/bash
-# tools/equivalents.sh - property-preserving rewrites must stay quiet.
+# tools/equivalents.sh [jobs] - property-preserving rewrites must stay quiet.
 # For every seeded-equivalent/<name>/patch.diff: the crate's own suite must
-# pass with it, and the related checks (the property in the name, plus C17)
-# must exit 0 against the rewritten copy.
+# pass with it, and the related checks (the property in the name, C17, and a
+# few neighbours that share code) must exit 0 against the rewritten copy.
+# Runs JOBS scratch builds in parallel (default 4).
 VERIF="$(cd "$(dirname "${BASH_SOURCE[0]}")/.." && pwd)"
+JOBS="${1:-4}"
 export CARGO_NET_OFFLINE=true
-bad=0
-for d in "$VERIF"/seeded-equivalent/*/; do
+OUT="$(mktemp -d /tmp/pkgsim-eq-all.XXXXXX)"
+trap 'rm -rf "$OUT" /tmp/pkgsim-mut-target-eq-* /tmp/pkgsim-seed-target-eq-*' EXIT
+one() {
+  d="$1"; slot="$2"
   name="$(basename "$d")"; prop="$(echo "$name" | sed -E 's/^R-(C[0-9]+)-.*/\1/')"
   SCR="$(mktemp -d /tmp/pkgsim-eq.XXXXXX)"
   rsync -a --exclude target --exclude .git /repo/ "$SCR/repo/"
-  (cd "$SCR/repo" && patch -p1 --quiet < "$d/patch.diff") || { echo "ALARM $name: patch does not apply"; bad=1; rm -rf "$SCR"; continue; }
-  if (cd "$SCR/repo" && CARGO_TARGET_DIR="${SEED_TARGET:-/tmp/pkgsim-seed-target}" cargo test --workspace --no-fail-fast --offline >"$SCR/suite.log" 2>&1); then suite=pass; else suite=FAIL; bad=1; fi
+  (cd "$SCR/repo" && patch -p1 --quiet < "$d/patch.diff") || { echo "ALARM $name: patch does not apply"; rm -rf "$SCR"; return; }
+  if (cd "$SCR/repo" && CARGO_TARGET_DIR="/tmp/pkgsim-seed-target-eq-$slot" cargo test --workspace --no-fail-fast --offline >"$SCR/suite.log" 2>&1); then suite=pass; else suite=FAIL; fi
   rm -rf "$SCR"
-  line="$name suite=$suite"
-  extra=""; [ "$prop" = C07 ] && extra="C09"; for P in $prop C17 $extra ${EXTRA_PROPS:-}; do
-    out="$(MUT_TARGET="${MUT_TARGET:-/tmp/pkgsim-mut-target}" "$VERIF/tools/mutant.sh" "$d/patch.diff" "$P" 2>&1)"; rc=$?
+  line="$name suite=$suite"; bad=0; [ $suite = pass ] || bad=1
+  extra=""
+  case "$prop" in C07) extra="C09";; C13) extra="C12";; C06) extra="C16";; C17) extra="C06 C07 C09 C12 C13 C16 C20";; esac
+  for P in $prop C17 $extra; do
+    [ "$P" = C17 ] && [ "$prop" = C17 ] && [ -n "$seen17" ] && continue; [ "$P" = C17 ] && seen17=1
+    out="$(MUT_TARGET="/tmp/pkgsim-mut-target-eq-$slot" "$VERIF/tools/mutant.sh" "$d/patch.diff" "$P" 2>&1)"; rc=$?
     line="$line $P=rc$rc"
     if [ $rc -ne 0 ]; then bad=1; echo "$out" | grep -E "^violation|harness|error" | cut -c1-300 | head -3; fi
   done
-  echo "$line"
+  seen17=""
+  [ $bad -eq 0 ] && echo "QUIET  $line" || echo "ALARM  $line"
+}
+i=0
+for d in "$VERIF"/seeded-equivalent/*/; do
+  [ -f "$d/patch.diff" ] || continue
+  slot=$((i % JOBS)); i=$((i+1))
+  echo "${d%/}" >> "$OUT/list.$slot"
 done
-[ $bad -eq 0 ] && echo "equivalent rewrites: all quiet" || echo "equivalent rewrites: ALARM"
-exit $bad
+for slot in $(seq 0 $((JOBS-1))); do
+  [ -f "$OUT/list.$slot" ] || continue
+  ( while read -r d; do one "$d" "$slot"; done < "$OUT/list.$slot" > "$OUT/res.$slot" 2>&1 ) &
+done
+wait
+cat "$OUT"/res.* | sort -k2
+n=$(cat "$OUT"/res.* | grep -c -E '^(QUIET|ALARM)'); bad=$(cat "$OUT"/res.* | grep -c '^ALARM')
+echo "equivalent rewrites: $n, alarms: $bad"
+[ "$bad" -eq 0 ]
